@@ -180,12 +180,17 @@ CHECKS = {
 ALL = ['C%02d' % i for i in range(1, 21)]
 
 
-CROSS_DEFAULT = (' Cross-cutting dimensions explored in the same run (DESIGN.md Part II, fourth round): every exact numeric / '
-                 'matrix / object form of the same input (ints, numpy integers and floats, read-only and strided arrays, objects '
-                 'rebuilt from text, with fields assigned, pickled, copied); alternative process environments (time zone, decimal '
-                 'context, numpy print options, cwd) around every n-th case; failing / extreme "poison" calls between cases; and a '
-                 "'threads' sub-check: every interleaving (line granularity, <= 1 preemption quick / 2 thorough) of two calls of the "
-                 "property's own API with different inputs per thread, each result compared with the call executed alone.")
+CROSS_DEFAULT = (' Cross-cutting dimensions explored in the same run (DESIGN.md Part II, rounds 4-6): every exact numeric / '
+                 'matrix / object form of the same input (ints, numpy integers of every width incl. unsigned, read-only / strided / '
+                 'integer-typed arrays, objects rebuilt from text, with fields assigned, pickled, copied, boolean flags as numpy bools); '
+                 'every spelling of a call against a pinned signature table (positional, keyword, partly keyword, documented defaults '
+                 'left out); alternative process environments (time zone, decimal context, numpy print options, cwd) around every n-th '
+                 'case and fresh interpreters started with -O / -OO / PYTHONOPTIMIZE and 16 hash seeds; failing / NaN / extreme '
+                 '"poison" calls between cases; process-wide interpreter state (warning filters, decimal context, numpy error state, '
+                 "cwd, ...) as an invariant around every case; and a 'threads' sub-check: every interleaving (line granularity, <= 1 "
+                 "preemption quick / 2 thorough where one execution has <= 90 scheduling points) of two calls of the property's own API "
+                 'with different inputs per thread in a freshly forked interpreter (first-use initialisation included; module-level '
+                 'locks of the library are replaced by cooperative proxies), each result compared with the call executed alone.')
 CROSS = {
     'C09': (' Also: shared caller-owned objects (histories of depth 3 and all pairs of calls on one object under the scheduler), '
             'rejected calls as history elements, hash twins (-1 / -2), statements on constants (+=), and the soak sub-check '
